@@ -400,8 +400,9 @@ def find_ops(cj, pred, out=None, path=()):
     return out
 
 
-def run_fence(owner, method, deviations=None, after=False, owner_raises=False):
-    """-> (outcome, scheduler).  `after`: the straggler only starts once the owner call has returned."""
+def run_fence(owner, method, deviations=None, after=False, owner_raises=False, warm=False):
+    """-> (outcome, scheduler).  `after`: the straggler only starts once the owner call has returned.
+    `warm`: the owner function itself makes the same (simple) call first, while it is allowed to."""
     fb = realrun.load_fb()
     FB = fb.FileBuilder
     root = os.path.realpath(tempfile.mkdtemp(prefix='fbh_fe_', dir=realrun.SANDBOX_BASE))
@@ -434,7 +435,10 @@ def run_fence(owner, method, deviations=None, after=False, owner_raises=False):
 
         def owner_fn(b, *a):
             try:
+                if warm and method not in ('build_file', 'build_file_with_comparison', 'subbuild'):
+                    call_method(b, method, P, [])
                 straggler(b)
+                s.yield_point('owner_body')     # the owner function is still at work: the straggler may get in here
                 if owner == 'build_file':
                     with open(a[0], 'w') as fh:
                         fh.write('o')
@@ -487,8 +491,9 @@ def run_fence(owner, method, deviations=None, after=False, owner_raises=False):
         out['started_after_owner_ended'] = (st['call_start_idx'] is not None and st['owner_done_idx'] is not None
                                             and st['call_start_idx'] > st['owner_done_idx'])
         # file-system calls the straggler's call made after the owner's call had returned
-        out['late_obs'] = [n for (i, tid, n, _a) in s.fs_exec
-                           if tid == st['tid'] and st['closed_idx'] is not None and i > st['closed_idx']]
+        # (the root builder is closed the moment its function ends; a nested one when its call has returned)
+        close = st['owner_done_idx'] if owner == 'root' else st['closed_idx']
+        out['late_obs'] = [n for (i, tid, n, _a) in s.fs_exec if tid == st['tid'] and close is not None and i > close]
         out['ran'] = list(ran)
         out['tree'] = snapshot_simple(root, cache)
         cj = realrun.read_cache_json(cache) if os.path.isfile(cache) else None
@@ -590,9 +595,16 @@ def _m_created_dirs_lost(case, fails):
 @core.matcher('straggler_runs_after_close')
 def _m_straggler(case, fails):
     f = fails[0]
-    return (f.get('method') in ('build_file', 'build_file_with_comparison', 'subbuild') and f.get('owner') in ('subbuild', 'build_file')
+    # (any builder: a nested one - the late call is then written to the cache as a root operation - or the root
+    # builder - the late function then runs while or after the build is committed)
+    return (f.get('method') in ('build_file', 'build_file_with_comparison', 'subbuild') and f.get('owner') in ('subbuild', 'build_file', 'root')
             and f.get('straggler', [None, None])[:2] == ['RuntimeError', 'finished']
-            and all(p.get('kind') == 'straggler_runs_after_close' for p in f.get('problems', [])))
+            and any(p.get('kind') == 'straggler_runs_after_close' for p in f.get('problems', []))
+            and all(p.get('kind') == 'straggler_runs_after_close' or
+                    # on the root builder the call that is still in flight makes the commit itself crash
+                    (f.get('owner') == 'root' and p.get('what') == 'the build did not finish normally' and
+                     list(p.get('root') or [])[:2] == ['exc', 'AttributeError'] and "'suboperations'" in str(p.get('root')))
+                    for p in f.get('problems', [])))
 
 
 # ---------------------------------------------------------------------------------------------
@@ -624,6 +636,8 @@ def classify_p3(owner, method, o):
         return 'unfinished'
     if res[0] == 'ok':
         inrec = bool(o.get('cache_ops')) if owner != 'root' or method in ('build_file', 'build_file_with_comparison', 'subbuild') else True
+        if (owner == 'root' and o.get('owner_raises')) or (o.get('root') or ['?'])[0] != 'ok':
+            inrec = True      # the record was closed with the operation in it, then rolled back: no cache to look into
         return 'completed-in-record inrecord=%s' % str(bool(inrec)).lower()
     if res[0] == 'RuntimeError' and res[1] == 'finished':
         if o.get('ran') or any(n[0].startswith('sdir') for n in o.get('tree') or []):
